@@ -108,6 +108,14 @@ def run(ctx: Ctx):
     cfg3 = dict(base_cfg, n=3)
     for k, c in enumerate(rig.exhaustive_cases(cfg3, [], ctx.scale(2, 3), rig.session_alphabet())):
         cases.append((f"exhsess:{k}", c))
+    # transport: routed topology (every host behind its own router port), both directions of the 0 <-> 1 path blocked / opened
+    cfgr = dict(base_cfg, topo="routed", max=2)
+    for pi, prefix in enumerate([[], [login]]):
+        for k, c in enumerate(rig.exhaustive_cases(cfgr, prefix, ctx.scale(3, 4) - pi, rig.route_alphabet())):
+            cases.append((f"exhroute:{pi}:{k}", c))
+    # the session core of the first family once more on the routed topology (nothing blocked: must behave like the switch)
+    for k, c in enumerate(rig.exhaustive_cases(dict(base_cfg, topo="routed"), [login], ctx.scale(2, 3), core)):
+        cases.append((f"exhcore-routed:{k}", c))
     rng = ctx.rng.fork("sess")
     for k in range(ctx.scale(500, 6000)):
         cases.append((f"gen:{k}", rig.gen_case(rng, max_ops=ctx.scale(30, 60))))
@@ -136,6 +144,9 @@ def run(ctx: Ctx):
         refused = any(a != "success" for a in answers)
         ctx.case(case, opened and refused)
         ctx.count("family:" + name.split(":")[0])
+        ctx.count("topology:" + case["cfg"].get("topo", "switch"))
+        if any(sn.get("blk") for sn in snaps):
+            ctx.count("traces-with-a-blocked-direction")
         for q, a in zip(lines[2:], answers):
             opn = _opname(q)
             ctx.count("op:" + opn)
@@ -178,3 +189,4 @@ def run(ctx: Ctx):
     ctx.oblige("oracle:C16 holds on the implementation on every trace", "oracle", oracle_ok == len(cases),
                f"{len(cases) - oracle_ok} of {len(cases)} traces fail the property's oracle")
     ctx.oblige("model never ran out of fuel", "correspondence", ctx.hist.get("model-out-of-fuel", 0) == 0)
+    ctx.count("half-open-logins(session on the target, client told failure)", rig.HALF_OPEN["n"])
